@@ -19,14 +19,15 @@ RULE = (
     "backend.errors. non-trivial = history containing a conversion or a failure before the probe."
 )
 ASSUMPTIONS = ["fresh-equivalent setup is the reference", "errors compared by type and message", "random module seeded per history (library draws only name detections)"]
-MENU = ["loadW", "loadL", "convColl", "convW", "convL", "init", "newB", "newBshared", "convB_W", "F_pipe", "F_ph_neg", "F_cond"]
+MENU = ["loadW", "loadL", "convColl", "convW", "convL", "convN", "init", "newB", "newBshared", "convB_W", "F_pipe", "F_ph_neg", "F_cond"]
 BOUNDS = {"quick": dict(depth=4), "thorough": dict(depth=5)}
+PROBES = ("W", "L", "W2", "S")
 NOCS = frozenset(V.ALL_TEMPLATES)
 KCFG = V.K(not_eq=True, state_expr=True)
 
 
 def bounds(tier):
-    return dict(BOUNDS[tier], menu=MENU, probes=["W", "L", "W2"])
+    return dict(BOUNDS[tier], menu=MENU, probes=list(PROBES))
 
 
 def rule_dict(kind):
@@ -39,6 +40,11 @@ def rule_dict(kind):
     elif kind == "L":
         base["logsource"] = {"category": "c", "product": "linux"}
         base["detection"] = {"sel": {"f1": "a", "f2|fieldref": "f1"}, "flt": {"f3": "x"}, "condition": "sel and not flt"}
+    elif kind == "S":  # strict rule whose own field is the TARGET name of the mapping f1 -> g1: must be reported as unmapped
+        base["tags"] = ["attack.strict"]
+        base["detection"] = {"sel": {"g1": "z"}, "flt": {"f3": "x"}, "condition": "sel and not flt"}
+    elif kind == "N":  # uses f9, which the user pipeline maps to f2 (the backend pipeline maps f2 -> g2)
+        base["detection"] = {"sel": {"f9": "n"}, "flt": {"f3": "x"}, "condition": "sel and not flt"}
     elif kind == "F_pipe":
         base["tags"] = ["attack.t1234"]
         base["detection"] = {"sel": {"f1": "a"}, "flt": {"f3": "x"}, "condition": "sel and not flt"}
@@ -53,7 +59,8 @@ USER_PIPE = {
     "name": "user", "priority": 20,
     "transformations": [
         {"id": "st", "type": "set_state", "key": "index", "val": "win", "rule_conditions": [{"type": "logsource", "product": "windows"}]},
-        {"id": "map1", "type": "field_name_mapping", "mapping": {"f1": "g1", "f3": ["g3a", "g3b"]}},
+        {"id": "map1", "type": "field_name_mapping", "mapping": {"f1": "g1", "f3": ["g3a", "g3b"], "f9": "f2"}},
+        {"id": "strict", "type": "strict_field_mapping_failure", "rule_conditions": [{"type": "tag", "tag": "attack.strict"}]},
         {"id": "cond", "type": "add_condition", "conditions": {"src": "winlog"}, "rule_conditions": [{"type": "processing_state", "key": "index", "val": "win"}]},
         {"id": "nest", "type": "nest", "items": [{"id": "sfx", "type": "field_name_suffix", "suffix": "_n", "field_name_conditions": [{"type": "include_fields", "fields": ["g1"]}]}]},
         {"id": "after", "type": "field_name_prefix", "prefix": "p.", "rule_conditions": [{"type": "processing_item_applied", "processing_item_id": "cond"}],
@@ -126,6 +133,8 @@ class World:
             self.conv(self.A, "W")
         elif ev == "convL":
             self.conv(self.A, "L")
+        elif ev == "convN":
+            self.conv(self.A, "N")
         elif ev == "init":
             self.A.init_processing_pipeline()
         elif ev == "newB":
@@ -178,7 +187,7 @@ def stale_owner_mechanism(hist):
     backend pipeline) after A's last (re-)initialisation, so A's items are owned by the other combined pipeline"""
     last_init_A = -1
     for i, ev in enumerate(hist):
-        if ev in ("init", "convColl") or (last_init_A < 0 and ev in ("convW", "convL", "F_pipe", "F_ph_neg", "F_cond")):
+        if ev in ("init", "convColl") or (last_init_A < 0 and ev in ("convW", "convL", "convN", "F_pipe", "F_ph_neg", "F_cond")):
             last_init_A = i
     for i, ev in enumerate(hist):
         if ev in ("newB", "newBshared") and i > last_init_A >= 0:
@@ -201,7 +210,7 @@ def judge(res, st, hist):
     st.state(w.canon())
     if any(e.startswith(("conv", "F_")) for e in hist):
         res["nontrivial"].add(h64(hist))
-    for kind in ("W", "L", "W2"):
+    for kind in PROBES:
         got = w.conv(w.A, kind)
         exp = fresh_probe(kind)
         res["outcomes"].add(h64([kind, got == exp]))
@@ -226,7 +235,7 @@ def run_shard(shard, tier, seed):
             w = World()
             for ev in h:
                 w.event(ev)
-            return [w.canon(), [w.conv(w.A, k) for k in ("W", "L", "W2")]]
+            return [w.canon(), [w.conv(w.A, k) for k in PROBES]]
         E.determinism_check(obs, E.histories(MENU, 2), limit=40)
         for h in E.histories(MENU, 1):
             judge(res, st, h)
@@ -235,7 +244,7 @@ def run_shard(shard, tier, seed):
     for h in E.histories(MENU, depth, prefix=shard):
         judge(res, st, h)
         if len(res["samples"]) < 1 and len(h) == depth:
-            res["samples"].append({"history": list(h), "probes": ["W", "L", "W2"]})
+            res["samples"].append({"history": list(h), "probes": list(PROBES)})
     return res
 
 
